@@ -132,4 +132,16 @@ theorem msaCompare_bound (R T : List NRow) (c : CmpStats) (h : msaCompare R T = 
         unfold scoreQ
         exact Nat.mul_le_mul_left _ this
 
+/-- a filter keeps the whole list exactly when every element passes -/
+theorem length_filter_eq_iff' {α} (p : α → Bool) (l : List α) :
+    (l.filter p).length = l.length ↔ ∀ x ∈ l, p x = true := by
+  induction l with
+  | nil => simp
+  | cons a l ih =>
+    by_cases h : p a = true
+    · simp [h, ih]
+    · have hle := List.length_filter_le p l
+      simp [h]
+      omega
+
 end Kalign
